@@ -122,6 +122,8 @@ type worldC struct {
 	accessOrphanEonKey *shcrypto.EonPublicKey
 	// accessReannounce: access nodes see the keyper set announced twice, first with other members
 	accessReannounce bool
+	// emptySetZero: nodes and access nodes also know the empty initial keyper set (index 0)
+	emptySetZero bool
 	// maxTxPointerAge overrides the Gnosis flavour's MaxTxPointerAge (default 2)
 	maxTxPointerAge uint64
 	eon int64
@@ -224,6 +226,13 @@ func (w *worldC) addNode(name string, idx int, state dkgState, extra func(nd *cN
 		w.provision(nd)
 	} else {
 		w.provisionEon(nd, state)
+	}
+	if w.emptySetZero {
+		// the chain's initial keyper set: index 0, no members, threshold 0 (the chain observer
+		// stores every keyper set it sees)
+		if err := obskeyper.New(nd.pool).InsertKeyperSet(nd.ctx, obskeyper.InsertKeyperSetParams{KeyperConfigIndex: 0, ActivationBlockNumber: 0, Keypers: []string{}, Threshold: 0}); err != nil {
+			r.InfraFail("InsertKeyperSet 0: %v", err)
+		}
 	}
 	nd.msg = p2p.VerifNewMessaging()
 	nd.sender = nd.msg
@@ -586,6 +595,9 @@ func (w *worldC) addAccessNode(name string) *cNode {
 	var keypers []string
 	for _, a := range w.addrs {
 		keypers = append(keypers, shdb.EncodeAddress(a))
+	}
+	if w.emptySetZero {
+		st.AddKeyperSet(0, &obskeyper.KeyperSet{KeyperConfigIndex: 0, ActivationBlockNumber: 0, Keypers: []string{}, Threshold: 0})
 	}
 	if w.accessOrphanEonKey != nil {
 		// the chain sync delivered an eon key broadcast whose keyper set it never got
